@@ -78,8 +78,9 @@ def _check_result(fname, r, given, is_root):
             raise Violation("%s: default %s %r is not a strict UTC time string" % (fname, field, r[field]), bucket="default time form")
     if given["timestamp"] is OMIT and given["expiration"] is OMIT:
         delta = (_parse(r["expiration"]) - _parse(r["timestamp"])).total_seconds()
-        if not (delta > 0 and abs(delta - 365 * 86400) <= 5):
-            raise Violation("%s: default expiration - timestamp = %s s, expected 365 days (+-5 s) and > 0" % (fname, delta),
+        # "about one year later": 365 days (what the library adds) up to a calendar year that contains 29 February
+        if not (delta > 0 and 365 * 86400 - 5 <= delta <= 366 * 86400 + 5):
+            raise Violation("%s: default expiration - timestamp = %s s, expected one year (365 to 366 days, +-5 s) and > 0" % (fname, delta),
                             bucket="default expiry distance")
     if given["timestamp"] is OMIT:
         now = datetime.datetime.now(datetime.timezone.utc).replace(tzinfo=None)
@@ -232,7 +233,41 @@ def _corrupt(draw):
     args = dict(base["args"])
     names = sorted(args)
     name = names[draw(st.integers(0, 10 ** 6)) % len(names)]
-    how = draw(st.sampled_from(["pyvalue", "falsy", "mutation", "mutation"]))
+    how = draw(st.sampled_from(["pyvalue", "falsy", "mutation", "mutation", "spelling", "dup-key"]))
+    if how == "dup-key":
+        # one key listed twice in a key list, the two occurrences anywhere (next to each other, first and last, around others)
+        lists = []
+        for k in names:
+            v = args[k]
+            if type(v) is list and v and all(type(x) is str for x in v):
+                lists.append((k, None))
+            elif type(v) is dict:
+                lists += [(k, r) for r in v if type(v[r]) is dict and type(v[r].get("pubkeys")) is list and v[r]["pubkeys"]]
+        if lists:
+            name, role = lists[draw(st.integers(0, 10 ** 6)) % len(lists)]
+            args[name] = copy.deepcopy(args[name])
+            lst = args[name] if role is None else args[name][role]["pubkeys"]
+            if len(lst) < 3 and draw(st.booleans()):
+                lst.append(keys.pub_hex(keys.POOL[15 - len(lst)]))
+            src = draw(st.integers(0, len(lst) - 1))
+            lst.insert(draw(st.integers(0, len(lst))), lst[src])
+            if role is not None:
+                args[name][role]["threshold"] = draw(st.sampled_from([1, 2, len(lst)]))
+            return {"which": base["which"], "args": args, "corrupted": name, "how": how, "base_args": dict(base["args"])}
+        how = "mutation"
+    if how == "spelling":
+        # a valid argument in another spelling the library lets through (time strings as strptime reads them: unpadded fields,
+        # lower-case t / z, other digits): whatever the builder does with it, "verbatim" and "well-formed" still apply
+        times = [k for k in names if type(args[k]) is str and MU._looks_like_time(args[k])]
+        if times:
+            name = times[draw(st.integers(0, 10 ** 6)) % len(times)]
+            for e in draw(st.permutations(["unpadded", "lower", "fullwidth_digit", "lower"])):
+                r = MU.apply({"v": args[name]}, {"path": ["v"], "op": "time:" + e})
+                if r is not MU.INAPPLICABLE and r["v"] != args[name]:
+                    args[name] = r["v"]
+                    break
+            return {"which": base["which"], "args": args, "corrupted": name, "how": how, "base_args": dict(base["args"])}
+        how = "mutation"
     if how == "pyvalue" or args[name] == OMIT and how == "mutation":
         args[name] = draw(st.one_of(GP.scalars, GP.python_values))
         how = "pyvalue"
@@ -244,12 +279,10 @@ def _corrupt(draw):
         path = list(ps[draw(st.integers(0, 10 ** 6)) % len(ps)])
         op = MU.OPS[draw(st.integers(0, 10 ** 6)) % len(MU.OPS)]
         node = G.get_path(doc, path)
-        if draw(st.integers(0, 2)) > 0 and type(node) in (str, int):
-            # two times in three a leaf gets an edit of its own grammar (time spellings, hex near-misses, numeric neighbours)
-            # rather than one of the ~50 type-confusing replacements
-            own = (["int:" + e for e in MU.INT_EDITS] if type(node) is int else
-                   ["time:" + e for e in MU.TIME_EDITS] + ["str:" + e for e in MU.STR_EDITS[:6]] if MU._looks_like_time(node) else
-                   ["str:" + e for e in MU.STR_EDITS])
+        own = MU.own_ops(node)
+        if own and draw(st.integers(0, 2)) > 0:
+            # two times in three a node gets an edit of its own kind (time spellings, hex near-misses, numeric neighbours, a key
+            # repeated somewhere in a list, a role name respelled) rather than one of the ~50 type-confusing replacements
             op = own[draw(st.integers(0, 10 ** 6)) % len(own)]
         r = MU.apply(doc, {"path": path, "op": op})
         if r is MU.INAPPLICABLE:
@@ -363,7 +396,7 @@ UNITS = [
     Unit("valid", check_valid, strategy=_valid, quick=1200, thorough=40000,
          essential=["root", "delegating", "exp<=ts", "omitted=2", "tz=non-UTC"], doc="valid argument tuples: faithful, well-formed output"),
     Unit("corrupt", check_corrupt, strategy=_corrupt, quick=2500, thorough=80000,
-         essential=["raised", "returned", "how=falsy", "how=mutation"],
+         essential=["raised", "returned", "how=falsy", "how=mutation", "how=spelling", "how=dup-key"],
          doc="each argument corrupted: argument error, or output that is still well-formed and verbatim"),
     Unit("chain", check_chain, strategy=_chains, quick=300, thorough=10000,
          essential=["rotated"], doc="builder -> signer -> verifier: three-link root chains and key_mgr delegation"),
@@ -373,4 +406,5 @@ UNITS = [
     _interfere.unit_after(PROPERTY, 'corrupt', quick=150, thorough=6000),
     _interfere.unit_after(PROPERTY, 'valid', quick=150, thorough=6000),
     _interrupt.unit_interrupted(PROPERTY, 'valid', quick=18, thorough=450, max_points=150),
+    _cfgunit.unit_under_clocks(PROPERTY, 'valid'),
 ]
